@@ -27,10 +27,12 @@ theorem afExtBytes_length (e : PacketAdaptationExtensionField) : (afExtBytes e).
   cases e.hasLegalTimeWindow <;> cases e.hasPiecewiseRate <;> cases e.hasSeamlessSplice <;>
     simp [packFields, fieldsWidth, beBytes, ptsBytes_length, ptsOrDTSByteLength]
 
-/-- the adaptation field never occupies more bytes than `calcPacketAdaptationFieldSize` announces (it may occupy
-fewer: private data is announced by its slice length but written only if TransportPrivateDataLength > 0) -/
-theorem afBytes_length_le (a : PacketAdaptationField) (h1 : a.isOneByteStuffing = false) :
-    ((afBytes a).length : Int) ≤ 1 + afSize a := by
+/-- **declared = written, for ANY adaptation field** that is not the one-byte form: the bytes written are exactly one
+(the length byte) more than `calcPacketAdaptationFieldSize` announces.  No hypothesis on TransportPrivateDataLength (the
+writer derives the private-data length byte from the data itself) and none on StuffingLength (a negative value counts, and
+is written, as 0 bytes). -/
+theorem afBytes_length (a : PacketAdaptationField) (h1 : a.isOneByteStuffing = false) :
+    ((afBytes a).length : Int) = 1 + afSize a := by
   unfold afBytes afSize
   simp only [h1, Bool.false_eq_true, if_false, List.length_append, List.length_cons, List.length_nil, List.length_replicate]
   have hf : (packFields [(b2n a.discontinuityIndicator, 1), (b2n a.randomAccessIndicator, 1),
@@ -38,13 +40,16 @@ theorem afBytes_length_le (a : PacketAdaptationField) (h1 : a.isOneByteStuffing 
         (b2n a.hasSplicingCountdown, 1), (b2n a.hasTransportPrivateData, 1), (b2n a.hasAdaptationExtensionField, 1)]).length = 1 := by
     simp [packFields, fieldsWidth, beBytes]
   rw [hf]
-  have hst : ((a.stuffingLength.toNat : Nat) : Int) ≤ (if 0 < a.stuffingLength then a.stuffingLength else 0) := by
+  have hst : ((a.stuffingLength.toNat : Nat) : Int) = (if 0 < a.stuffingLength then a.stuffingLength else 0) := by
     split <;> omega
-  have hpriv : ((if 0 < a.transportPrivateDataLength then a.transportPrivateData else []).length : Int) ≤ a.transportPrivateData.length := by
-    split <;> simp
   cases hpcr : a.hasPCR <;> cases hopcr : a.hasOPCR <;> cases hsc : a.hasSplicingCountdown <;>
     cases hpd : a.hasTransportPrivateData <;> cases hext : a.hasAdaptationExtensionField <;>
     simp [pcrBytes_length, afExtBytes_length] <;> omega
+
+/-- the earlier, weaker form (before the writer fix the private data could be announced but not written, so only `≤`
+held): the adaptation field never occupies more bytes than `calcPacketAdaptationFieldSize` announces -/
+theorem afBytes_length_le (a : PacketAdaptationField) (h1 : a.isOneByteStuffing = false) :
+    ((afBytes a).length : Int) ≤ 1 + afSize a := Int.le_of_eq (afBytes_length a h1)
 
 /-- **any** packet, any target: a successful `writePacket` emits exactly `target` bytes -/
 theorem writePacket_length (p : Packet) (target : Nat) (bs : Bytes) (h : writePacket p target = .ok bs) :
